@@ -131,6 +131,12 @@ impl InferenceRules {
     ///
     /// Returns [`Err`] if any of the inference rules error.
     pub fn infer(&mut self, value: &TCBoxedVal, state: &mut TypeCheckerState) -> Result<()> {
+        #[cfg(smlxl_storage_layout_extractor_verif)]
+        if crate::verif_hooks::active() {
+            return crate::verif_hooks::ordered_vec("tc.rules", self.rules.iter())
+                .into_iter()
+                .try_for_each(|rule| rule.infer(value, state));
+        }
         for rule in &self.rules {
             rule.infer(value, state)?;
         }
